@@ -93,30 +93,39 @@ def _neg_test(test):
                 rv = r.value
             else:
                 continue
-            if ((isinstance(op, ast.Lt) and rv == 0) or (isinstance(op, ast.LtE) and rv == -1)) and "parsed" not in unparse(l):
+            if ((isinstance(op, ast.Lt) and rv == 0) or (isinstance(op, ast.LtE) and rv == -1)) and "parse_bytes" not in unparse(l):
                 return True
     return False
 
 
-def _is_neg_refusal(n):
-    return isinstance(n, ast.If) and _neg_test(n.test) and any(isinstance(x, ast.Raise) for b in n.body for x in ast.walk(b))
+def _is_neg_refusal(n, defs, mod):
+    """``if <... X < 0 ...>: raise`` where X is not the parsed byte-string value (locals and private predicates looked
+    through, so that a renamed local or an extracted predicate changes nothing)."""
+    from ..refguards import _inline
+
+    return isinstance(n, ast.If) and any(isinstance(x, ast.Raise) for b in n.body for x in ast.walk(b)) and _neg_test(_inline(n.test, defs, module=mod))
 
 
 def r16_3(ctx):
+    from ..dataflow import Defs
+
     rr = RuleResult("R16.3", "PASS", "every normal return of normalize_chunks passes through a refusal of negative sizes (after the -1 / None placeholders are substituted)", min_instances=1)
     mod = ctx.repo.mod("dask_array._core_utils")
     f = mod.functions.get("normalize_chunks")
     need(f is not None, "dask_array/_core_utils.py::normalize_chunks")
     cfg = cfg_of(ctx, f)
+    defs = Defs(f.node)
 
     def refuses(n):
-        if _is_neg_refusal(n):
+        if _is_neg_refusal(n, defs, mod):
             return True
         # a module-local helper called as a statement whose body holds the refusal
         if isinstance(n, (ast.Expr, ast.Assign)) and isinstance(n.value, ast.Call):
             h = mod.functions.get(dotted(n.value.func) or "")
-            if h is not None and any(_is_neg_refusal(x) for x in body_walk(h.node)):
-                return True
+            if h is not None:
+                hdefs = Defs(h.node)
+                if any(_is_neg_refusal(x, hdefs, mod) for x in body_walk(h.node)):
+                    return True
         return False
 
     gates = [n for n in cfg.stmts() if refuses(n)]
